@@ -83,7 +83,7 @@ CHECKS = {
         category="exploration",
         technique="model-based property testing of DatagramFlow (writer / packet loading / reader) with complete enumeration of sizes around every limit and packet-space boundary",
         text="Send is refused iff 1+len exceeds the peer limit; every load writes nothing or padding plus exactly one DATAGRAM frame whose payload (after FrameReader) is the queue head, unmerged and unsplit, no-length form only as last frame; the receiver accepts iff the frame fits the local maximum (else PROTOCOL_VIOLATION) and yields payloads unchanged and in order, waking parked readers. Limits {0..5, 64..67, 16385..16388} x lengths around the limit x packet room around the frame size x neighbouring frames exhaustively (7k) + 500k (25M thorough) random histories with loss.",
-        note="Component level. The clause 'an accepted datagram is actually put on the wire' needs the connection: source reading shows DatagramFlow::try_load_data_into has no caller in qconnection (burst.rs has `// TODO: datagram` in both packet assemblers), see DESIGN.md findings; it is asserted end-to-end by the simnet datagram stage when built.",
+        note="Two binaries decide C19 (bin/check runs both and merges the evidence): comp/c19 at component level and e2e/c19e, a connection-level stage on simnet (300 quick / 20 000 thorough runs of the real client+server with generated max_datagram_frame_size on both sides) asserting that an accepted datagram that fits a packet reaches the peer application within 1 s on an open, idle, loss-free connection, unchanged and in order. That clause currently fails on every run (known finding: the datagram queue is not wired into packet assembly).",
         design_ref="DESIGN.md §3 C19",
     ),
     "C09": dict(
